@@ -69,6 +69,15 @@ fn g_multi(r: &mut Rng) -> String {
 fn g_rel(r: &mut Rng) -> Relations {
     Relations::from_str(["libc6 (>= 2.14), libgcc1", "a | b (<< 1:2.0~rc1), c [amd64 !i386] <!nocheck>", "debhelper-compat (= 13)", "x"][r.below(4)]).unwrap()
 }
+/// relation values as they occur in debian/control: substitution variables are part of nearly every binary paragraph
+fn g_rel_sv(r: &mut Rng) -> Relations {
+    if r.chance(1, 2) {
+        return g_rel(r);
+    }
+    let (rel, errs) = Relations::parse_relaxed(["${misc:Depends}, bar (>= 1.0)", "${shlibs:Depends}, ${misc:Depends}", "a | b, ${x:Y}"][r.below(3)], true);
+    assert!(errs.is_empty());
+    rel
+}
 fn g_prio(r: &mut Rng) -> Priority {
     [Priority::Required, Priority::Important, Priority::Standard, Priority::Optional, Priority::Extra][r.below(5)].clone()
 }
@@ -148,7 +157,7 @@ macro_rules! r_str {
 /// setter(Relations by value), getter Option<Relations>
 macro_rules! r_rel {
     ($v:ident, $view:expr, $get:ident, $set:ident, $field:expr) => {
-        row!($v, $view, $get, $set, $field, "old (>= 1)", g_rel, |x| Relations::from_str(&x.to_string()).unwrap(), |x| d(&Some(x.to_string())), |g| ds(&g))
+        row!($v, $view, $get, $set, $field, "old (>= 1)", g_rel, |x| Relations::parse_relaxed(&x.to_string(), true).0, |x| d(&Some(x.to_string())), |g| ds(&g))
     };
 }
 /// setter(Option<&Relations>), getter Option<Relations> — Some and None forms
@@ -166,7 +175,7 @@ macro_rules! r_orel {
                     view.$set(None);
                     ("None".to_string(), ds(&view.$get()), true)
                 } else {
-                    let x = g_rel(r);
+                    let x = g_rel_sv(r);
                     view.$set(Some(&x));
                     (d(&Some(x.to_string())), ds(&view.$get()), false)
                 }
@@ -250,7 +259,7 @@ pub fn rows() -> Vec<Row> {
         r_opt!(v_csrc, "control::Source", section, set_section, "Section", "old", g_str, |x| x.as_str()),
         r_opt!(v_csrc, "control::Source", priority, set_priority, "Priority", "extra", g_prio, |x| x),
         r_str!(v_csrc, "control::Source", maintainer, set_maintainer, "Maintainer"),
-        row!(v_csrc, "control::Source", build_depends, set_build_depends, "Build-Depends", "old (>= 1)", g_rel, |x| &x, |x| d(&Some(x.to_string())), |g| ds(&g)),
+        row!(v_csrc, "control::Source", build_depends, set_build_depends, "Build-Depends", "old (>= 1)", g_rel_sv, |x| &x, |x| d(&Some(x.to_string())), |g| ds(&g)),
         r_str!(v_csrc, "control::Source", standards_version, set_standards_version, "Standards-Version"),
         row!(v_csrc, "control::Source", homepage, set_homepage, "Homepage", "https://old.example/", g_url, |x| &x, |x| d(&Some(x)), |g| d(&g)),
         r_str!(v_csrc, "control::Source", vcs_git, set_vcs_git, "Vcs-Git"),
@@ -757,6 +766,10 @@ pub fn reads() -> Vec<Read> {
         Read { what: "control::Source::vcs Svn", text: "Source: foo\nVcs-Svn: svn://e.org/x\n", read: |d| format!("{:?}", v_csrc(d).vcs().map(|v| (v.to_field().0.to_string(), v.to_field().1))), expect: "Some((\"Svn\", \"svn://e.org/x\"))" },
         Read { what: "control::Source::priority", text: "Source: foo\nPriority: optional\n", read: |d| format!("{:?}", v_csrc(d).priority()), expect: "Some(Optional)" },
         Read { what: "control::Source::build_depends entries", text: "Source: foo\nBuild-Depends: a (>= 1),\n b | c,\n d [amd64]\n", read: |d| format!("{:?}", v_csrc(d).build_depends().map(|r| r.entries().map(|e| e.to_string().trim().to_string()).collect::<Vec<_>>())), expect: "Some([\"a (>= 1)\", \"b | c\", \"d [amd64]\"])" },
+        Read { what: "control::Binary::depends with substitution variables", text: "Source: foo\n\nPackage: bar\nDepends: ${shlibs:Depends}, ${misc:Depends},\n baz (>= 1)\n", read: |d| format!("{:?}", v_cbin(d).depends().map(|r| (r.entries().map(|e| e.to_string().trim().to_string()).collect::<Vec<_>>(), r.substvars().collect::<Vec<_>>()))), expect: "Some(([\"baz (>= 1)\"], [\"${shlibs:Depends}\", \"${misc:Depends}\"]))" },
+        Read { what: "control::Source::build_depends with substitution variable", text: "Source: foo\nBuild-Depends: debhelper-compat (= 13), ${extra:Build-Depends}\n", read: |d| format!("{:?}", v_csrc(d).build_depends().map(|r| (r.entries().count(), r.substvars().collect::<Vec<_>>()))), expect: "Some((1, [\"${extra:Build-Depends}\"]))" },
+        Read { what: "Buildinfo::build_tainted_by folded, one tag per line", text: "Format: 1.0\nBuild-Tainted-By:\n merged-usr-via-aliased-dirs\n usr-local-has-programs\n", read: |d| format!("{:?}", v_binfo(d).build_tainted_by()), expect: "Some([\"merged-usr-via-aliased-dirs\", \"usr-local-has-programs\"])" },
+        Read { what: "Buildinfo::build_tainted_by several blanks", text: "Format: 1.0\nBuild-Tainted-By: a  b\n", read: |d| format!("{:?}", v_binfo(d).build_tainted_by()), expect: "Some([\"a\", \"b\"])" },
         Read { what: "control::Binary::essential yes", text: "Source: foo\n\nPackage: bar\nEssential: yes\n", read: |d| format!("{:?}", v_cbin(d).essential()), expect: "true" },
         Read { what: "control::Binary::essential no", text: "Source: foo\n\nPackage: bar\nEssential: no\n", read: |d| format!("{:?}", v_cbin(d).essential()), expect: "false" },
         Read { what: "control::Binary::essential absent", text: "Source: foo\n\nPackage: bar\n", read: |d| format!("{:?}", v_cbin(d).essential()), expect: "false" },
